@@ -21,16 +21,16 @@ CHECKS = {
    "Stateless model checking of the implementation: every schedule with <=2 deviations (3 for single-route scenarios, thorough) of registering / sending / dropping tasks against the real router thread of a private RouterProxy: 1-3 routes, callback (with drop guard) and crossbeam-forwarding, 0-2 messages queued before registration and 0-2 after, registered from one or two tasks; oracle: per-route handler log equals that route's sends in order and nothing else, guard dropped exactly once after the last message, forwarding receivers disconnect, no deadlock, no panic on any thread.",
    E1NOTE, "controlled-scheduler stateless exploration with deviation bounding (E1)", "DESIGN.md §4 C07"),
  "C13": ("fault_enumeration",
-   "Exhaustive fault enumeration: all 2^7 (quick) / 2^10 (thorough) ENOBUFS patterns over the first transmission attempts of one send x {<=2000 B, one packet >2000 B, 2, 3, 6 packets} x {plain, sender+region attached} x {4608-byte, system default} buffer, with a reader task under the scheduler; oracle: Ok => exact payload, working attachments, intact follow-on message, transmitted bytes == accepted bytes; Err allowed; never a hang.",
+   "Exhaustive fault enumeration: all 2^7 (quick) / 2^12 (thorough) ENOBUFS patterns over the first transmission attempts of one send x {<=2000 B, one packet >2000 B, 2, 3, 6 packets} x {plain, sender+region attached} x {4608-byte, system default} buffer, with a reader task under the scheduler; plus the first 8 (32) patterns on one- and two-packet messages carrying 62..64 attachments, and platform-level sends (exact attachment lists visible) of 12 lengths from 2001 bytes to two packets under the first 8 (64) patterns; oracle: Ok => exact payload, working attachments, intact follow-on message, transmitted bytes == accepted bytes; Err allowed; never a hang.",
    E2NOTE, "exhaustive fault-pattern enumeration at the libc boundary (E2) under the controlled scheduler's default schedule", "DESIGN.md §4 C13"),
  "C14": ("exploration",
    "Bounded-exhaustive enumeration of serialisation programs (attach sender/receiver/region, data, fail here, nested send of a sub-program received from inside the outer deserialisation) of length <=3, nesting depth <=2 (3 thorough); oracle: accepted messages carry exactly their own attachments in place, endpoints of failed sends disconnect once program handles are gone, two follow-up messages on the same thread arrive intact, descriptor ledger empty.",
    E2NOTE, "bounded-exhaustive program enumeration on the real code (E2), single task under the scheduler for exact hang detection", "DESIGN.md §4 C14"),
  "C15": ("exploration",
-   "Bounded-exhaustive enumeration of attachment counts (12 boundary counts quick, every count 0..=300 thorough) x 4 mixtures x 5 data-part sizes; oracle: refused => channel still usable; accepted => value arrives with every attachment probed; a receive that would hang is an exact deadlock report.",
+   "Bounded-exhaustive enumeration of attachment counts (12 boundary counts quick, every count 0..=300 thorough) x 4 mixtures x 5 data-part sizes, plus counts 61..65 while the first transmission attempts are refused with ENOBUFS; oracle: refused => channel still usable; accepted => value arrives with every attachment probed; a receive that would hang is an exact deadlock report.",
    E2NOTE, "bounded-exhaustive input enumeration on the real code (E2)", "DESIGN.md §4 C15"),
  "C16": ("exploration",
-   "Bounded-exhaustive enumeration: all 144 (sent type, expected type) pairs of a 12-type family, every single-byte substitution/truncation/extension of each valid encoding, crafted attachment indices (out of range, reused), unused attachment lists, select-and-drop and bytes-receiver paths, each in a sacrificial child; oracle: value or error, no panic/abort/signal, attachments released (channels disconnect, ledger empty, no bad close).",
+   "Bounded-exhaustive enumeration: all 144 (sent type, expected type) pairs of a 12-type family, every single-byte substitution/truncation/extension of each valid encoding, crafted attachment indices (out of range, reused), unused attachment lists, select-and-drop and bytes-receiver paths, the same decodes right after another message failed to decode on the thread, each in a sacrificial child whose allocator refuses requests above 1 GiB; oracle: value or error, no panic/abort/signal, attachments released (channels disconnect, ledger empty, no bad close).",
    E2NOTE, "bounded-exhaustive input/mutation enumeration on the real code (E2)", "DESIGN.md §4 C16"),
  "C17": ("model_checking",
    "Stateless model checking of the implementation: every schedule with <=2 deviations of 0-2 live routes (callback / forwarding, optionally a message in flight) stopped by shutdown() from 1-2 tasks or by dropping the proxy, optionally racing add_route, followed by further sends and a wait for quiescence; oracle: no callback after the stop, every callback dropped exactly once (at shutdown return / at quiescence), forwarding receivers disconnected, late routes never invoked, no panic on any thread, no deadlock.",
@@ -39,10 +39,10 @@ CHECKS = {
    "Explicit-state BFS over the reference model's state graph (clone / drop / send / embed sender / embed receiver / three receive variants / drop receiver / move handle to another thread / to a forked process; canonical-state dedup; quick: every history up to depth 4 on 3 channels and up to depth 7 on 2 channels; thorough: depth 6 / 3 channels, depth 5 / 4 channels, depth 12 / 2 channels) with every transition replayed from scratch on the real API and every observable result compared, plus non-destructive disconnection probes; and stateless exploration (<=2/3 deviations) of the final drops racing a blocked, timed or polling receive.",
    E1NOTE + " Model graphs are explored completely up to a depth bound (reported); a state cap, if hit, is reported and makes exhaustive=false.", "explicit-state model search with full trace conformance replay on the implementation + controlled-scheduler exploration (E1)", "DESIGN.md §4 C03"),
  "C06": ("model_checking",
-   "Stateless model checking (<=2 deviations incl. EINTR answers to epoll_wait) of sender tasks racing the selecting task with 2-3 members and a member added after the first select; plus scripted single-task histories (1..12/64 ready members, traffic queued before/after add, all size sequences up to length 2/3 for two members, bursts of 63..150 messages between waits, re-adding after closures) where a select that blocks while an event is pending is an exact deadlock.",
+   "Stateless model checking (<=2 deviations incl. EINTR answers to epoll_wait) of sender tasks racing the selecting task with 2-3 members and a member added after the first select; plus scripted single-task histories (1..12/64 ready members, traffic queued before/after add, all size sequences up to length 2/3 for two members, bursts of 63..150 messages between waits, backlogs of 10..64 messages on two or three members at once with the newer member ready first, re-adding after closures) where a select that blocks while an event is pending is an exact deadlock.",
    E1NOTE, "controlled-scheduler stateless exploration with deviation bounding (E1) + bounded-exhaustive scripted histories", "DESIGN.md §4 C06"),
  "C09": ("exploration",
-   "Bounded-exhaustive enumeration of send streams (<=3/4 sends, small / 3-packet, plain / with attachments) x drop position x dropper (same thread, other thread, forked process that exits) x how the receiver is held (directly, inside a carrier that is dropped, in transit and unpacked), SIGPIPE at its default disposition, blocked sends detected exactly; plus the drop racing the stream under E1.",
+   "Bounded-exhaustive enumeration of send streams (<=3/4 sends, small / 3-packet, plain / with attachments) x drop position x dropper (same thread, other thread, forked process that exits) x how the receiver is held (directly, inside a carrier that is dropped, in transit and unpacked), SIGPIPE at its default disposition, blocked sends detected exactly; a receiver whose only handle travels in a carrier message whose sender is killed before transport call k, or that arrives but cannot be decoded, or that was serialised by reference and whose delivered copy is dropped (sends must then fail); plus the drop racing the stream under E1.",
    E2NOTE, "bounded-exhaustive history enumeration (E2) + controlled-scheduler exploration (E1)", "DESIGN.md §4 C09"),
  "C10": ("model_checking",
    "Stateless model checking (<=2/3 deviations, timer firings as explicit alternatives) of try_recv / try_recv_timeout(d) [+ a second call] followed by blocking recv against a sending or dropping task; plus every call sequence of length <=3/4 over {recv, try_recv, try_recv_timeout(d)} x pre-actions, each optionally ended by a blocking recv that must block (exact), with virtual timers (the virtual clock advances by what each timed wait asked for; 'empty' before the requested time is a violation) and the poll(2) argument checked; 5 real-time lower-bound cases; all of it on the OS build and on the in-process build (where a yielding task may also keep the processor, one deviation per run of yields, so that the spin-then-park back-off is explored up to parking).",
@@ -51,7 +51,7 @@ CHECKS = {
    "Bounded-exhaustive enumeration of operation sequences (length <=3 quick / 4 thorough over 18 public-API operations incl. failing ones) x drop order, with a descriptor/mapping ledger at the libc boundary in no-reuse numbering mode, /proc/self/fd, /proc/self/maps and temp-root comparison, close-on-exec-at-creation tracking and an exec'ed child that lists what it inherited.",
    E2NOTE, "bounded-exhaustive operation-sequence enumeration with a libc-boundary resource ledger (E2)", "DESIGN.md §4 C11"),
  "C12": ("fault_enumeration",
-   "Exhaustive crash-point enumeration with real processes: the sending process is SIGKILLed before its k-th transport system call for every k (0..=N, N measured), message shapes 1..6 packets x attachments x preceding message x surviving sender in another process x observer (blocking recv where due, try_recv, receiver set, router callback); oracle: completed messages intact, interrupted one intact or not a message, 'disconnected' only without survivor, survivor's message arrives, nothing hangs.",
+   "Exhaustive crash-point enumeration with real processes: the sending process is SIGKILLed before its k-th transport system call for every k (0..=N, N measured), message shapes 1..6 (thorough: 1..8 and 12) packets x attachments x preceding message x surviving sender in another process x observer (blocking recv where due, try_recv, try_recv_timeout, receiver set, router callback, receiver already blocked while the sender dies); oracle: completed messages intact, interrupted one intact or not a message, 'disconnected' only without survivor, survivor's message arrives, nothing hangs.",
    E2NOTE, "exhaustive crash-point enumeration at the system-call boundary with real forked processes", "DESIGN.md §4 C12"),
  "C18": ("exploration",
    "Memory-safety monitors as oracles over bounded-exhaustive shape sets (C01 boundary windows, C13 ENOBUFS patterns, C15 0..66 attachments, C12 crash indices, regions of every boundary length incl. platform-level zero length): AddressSanitizer build with kernel-boundary range checks re-implemented in the interposer, two allocation fill bytes on the plain build, debug assertions and core ub_checks everywhere.",
@@ -63,7 +63,7 @@ CHECKS = {
    "Bounded-exhaustive enumeration of region lengths {0,1,2,P-1,P,P+1,2P-1,2P,2P+1,1 MiB,(32 MiB)} x constructor x 0..3 clones x reader (same process / forked child) x read moment (on receipt / after all sender-side copies and the carrier are gone), ordered pairs/triples and rotations of up to 4 (8) regions per message, on the os, memfd and in-process builds.",
    E2NOTE, "bounded-exhaustive input/configuration enumeration on the real code (E2) on three builds", "DESIGN.md §4 C05"),
  "C08": ("model_checking",
-   "Stateless model checking (<=2/3 deviations) of a server task (new, accept) against a client task (connect, 1-3 messages of mixed size incl. attachments, drop) so that accept-first, connect-first, sends-before-accept and client-finished-before-accept all arise as schedules, with a fake and with a kernel-enforced small send buffer; plus forked clients that exit before accept (1..5/20 messages), 1..50/200 servers alive at once, servers dropped unused, exec'ed child while a server is alive; oracle: first message + rest in order then disconnected, distinct names, empty temp root and no listening descriptor afterwards.",
+   "Stateless model checking (<=2/3 deviations) of a server task (new, accept) against a client task (connect, 1-3 messages of mixed size incl. attachments, drop) so that accept-first, connect-first, sends-before-accept and client-finished-before-accept all arise as schedules, with a fake and with a kernel-enforced small send buffer; plus forked clients that exit before accept (1..5/20 messages), 1..50/200 servers alive at once, servers dropped unused, exec'ed child while a server is alive, a two-way bootstrap (the client's first message names a second server it created after connecting), rendezvous files counted against servers still alive; oracle: first message + rest in order then disconnected, distinct names, empty temp root and no listening descriptor afterwards.",
    E1NOTE, "controlled-scheduler stateless exploration (E1) + sequential process-level cases", "DESIGN.md §4 C08"),
  "C19": ("model_checking",
    "Explicit-state BFS over the reference model (ideal unbounded FIFO channels with counted handles, endpoints in transit, regions, a receiver set, channel creation plain and through a one-shot server); every transition is one program executed from scratch on the os, memfd and in-process builds with every observable result compared with the model (values, order, empty, disconnected, send failures; select results per member); plus a family of long-queue programs (31..64 queued on one channel [3..64 thorough], consumed by each receive variant one step past the end or through the set, sender kept or dropped) on the three builds.",
